@@ -341,6 +341,20 @@ pub fn inproc(f: Fmt, shape: Shape, to: Fmt, thorough: bool, acc: &mut Acc) -> O
                     acc.violation(Violation { sig: format!("{} {} from={}: slice and reader disagree at a depth", f.name(), shape.name().split(':').next().unwrap(), fmts::from_name(from)), case: case(), observed: format!("depth {d}: slice {s}, reader(all) {r1}, reader(fixed 7) {r2}"), expected: "the same verdict from slice and reader".into() });
                     return None;
                 }
+                if from.is_none() && to != Fmt::Toml && d <= 2000 {
+                    // the same detected runs on a Translator that has just translated a detected input of each
+                    // format: the verdict at this depth may not depend on that
+                    for (wname, warm) in crate::run::WARM_UPS {
+                        for mode in [Mode::Slice, Mode::Reader(Sched::All)] {
+                            let w = crate::run::run_after(&[warm], &input, &mode, None, to).verdict.class().to_string();
+                            acc.count("verdicts_on_a_warmed_up_translator");
+                            if w != s {
+                                acc.violation(Violation { sig: format!("{} {}: the verdict at a depth depends on what the translator saw before (after {wname})", f.name(), shape.name().split(':').next().unwrap()), case: case(), observed: format!("depth {d}, detected, {}: {w} after a detected {wname} input, {s} on a fresh translator", mode.describe()), expected: "the same verdict as on a fresh translator".into() });
+                                return None;
+                            }
+                        }
+                    }
+                }
                 classes.push((fmts::from_name(from).to_string(), s));
             }
             if style == "flow_empty_core" || style.ends_with("_then_second_document") {
@@ -510,7 +524,7 @@ pub fn run(ctx: &Ctx) -> i32 {
         }
     }
     size_hook(&mut acc, ctx.seed, ctx.size(20000, 400000));
-    let rule = format!("{} (source format, nesting shape, target) combinations: shapes arrays / maps / alternating / 2 random mixtures (+ key-position nesting for MessagePack; MessagePack documents also spelled with 16/32-bit length headers and with 16-entry collections on the deepest path; every JSON / MessagePack / YAML document also followed by a second, tiny document) x 4 targets; depths: a +-6 window around each format's limit (MessagePack 1024, JSON 128, YAML 128, TOML 80; YAML also in block style), 1000..1025, 10^4, 10^5{} ; at every depth slice vs reader(all) vs reader(fixed 7), explicit and detected; the debug and release binaries (default stack; file and stdin, source format given or detected) at the limit, one beyond and far beyond; MessagePack size calculator vs the harness decoder on generated, padded and truncated values; distinct non-trivial = distinct combinations", work.len(), if thorough { ", 10^6 (3*10^4 for YAML)" } else { "" });
+    let rule = format!("{} (source format, nesting shape, target) combinations: shapes arrays / maps / alternating / 2 random mixtures (+ key-position nesting for MessagePack; MessagePack documents also spelled with 16/32-bit length headers and with 16-entry collections on the deepest path; every JSON / MessagePack / YAML document also followed by a second, tiny document) x 4 targets; depths: a +-6 window around each format's limit (MessagePack 1024, JSON 128, YAML 128, TOML 80; YAML also in block style), 1000..1025, 10^4, 10^5{} ; at every depth slice vs reader(all) vs reader(fixed 7), explicit and detected, and (depths up to 2000) detected on a translator that has just translated a detected input of each format; the debug and release binaries (default stack; file and stdin, source format given or detected) at the limit, one beyond and far beyond; MessagePack size calculator vs the harness decoder on generated, padded and truncated values; distinct non-trivial = distinct combinations", work.len(), if thorough { ", 10^6 (3*10^4 for YAML)" } else { "" });
     ev::finish(
         Finish { ctx, level: "exploration", rule, assumptions: vec!["YAML depths are capped (parsing is quadratic in depth)".into(), "targets that refuse the document for another reason (TOML with an array root) are left out of the limit comparison".into()], extra, exhaustive: false, min_distinct: 40, must_reach: vec![("binary_status_matches_library".into(), 100), ("binary_runs_debug".into(), 50), ("binary_runs_with_detection".into(), 50), ("size_hook_cases".into(), 1000), ("inproc_msgpack".into(), 100), ("msgpack_styled_documents".into(), 500)] },
         acc,
